@@ -58,6 +58,10 @@ CHECKS = {
          "deterministic simulation of an environment input: the real pyramid driver on SimFS with poisoned np.empty -- every computation runs twice under two different poison bytes (difference => unwritten voxel) and each level is compared with the global downscale of the previous level; infos come from the real scale generator; every transition also exercised on its own",
          "Seeded search over sizes, resolution ratios (isotropic to strongly anisotropic, dyadic and not), target chunk sizes, methods, data types, channels, encodings and layouts. Oracles: poison independence, global-downscale equality, loud failure allowed except for pairs satisfying the documented processing assumption. Sampling, not proof.",
          "Trusts the repository's Downscaler.downscale as the definitional operator (C07 not claimed) and the independent 'must complete' predicate in checks/c06.py."),
+ "C15": ("exploration",
+         "deterministic simulation of an environment input: the real slice converter run as a simulated process with a seeded permutation of the directory enumeration order (os.listdir seam) and file names whose lexicographic, numeric and creation orders differ; all 48 orientation codes enumerated round-robin; index-mapping reference oracle",
+         "All 48 codes are enumerated (idx mod 48); sizes, chunk sizes, channel kinds, pixel types, storage options, name styles and enumeration permutations are sampled. Every voxel of the converted volume is compared with the reference mapping written from the statement. Borderline applicability is discussed in DESIGN.md 2.2.",
+         "Trusts the index-mapping reference in checks/c15.py and PIL/scikit-image PNG round trip; slice images are real files, only their enumeration order is simulated."),
 }
 
 def main():
